@@ -95,9 +95,60 @@ type Env struct {
 	RecordMW     bool
 	NotFoundOf   map[string]*Hnd // router name -> its not-found handler
 	Group404     *Hnd
+
+	// Siblings: NewRouter builds the router with Group.New inside an option-less group, between two decoy routers of
+	// the same group that carry every option with the opposite meaning (see DecoyOptions). A router made by Group.New
+	// with its own options must behave exactly like a stand-alone one.
+	Siblings bool
+	inDecoy  atomic.Int32
 }
 
-func NewEnv() *Env { return &Env{RecordMW: true} }
+// Hostile-sibling containers: one Env in four (chosen from the case salt, so a replayed case builds the same way).
+var (
+	caseSalt atomic.Uint64
+	envSeq   atomic.Uint64
+	// DecoyRules are rule texts the decoy siblings register as interceptors (set by the engines from the pattern pools).
+	DecoyRules []string
+	// SiblingsOneIn: 0 disables the containers.
+	SiblingsOneIn uint64 = 4
+)
+
+// SiblingRouters counts routers built inside a hostile container (reported as a workload class).
+var SiblingRouters atomic.Int64
+
+func SetCaseSalt(s uint64) { caseSalt.Store(s); envSeq.Store(0) }
+
+func mix(x uint64) uint64 {
+	x += 0x9e3779b97f4a7c15
+	x = (x ^ (x >> 30)) * 0xbf58476d1ce4e5b9
+	x = (x ^ (x >> 27)) * 0x94d049bb133111eb
+	return x ^ (x >> 31)
+}
+
+func NewEnv() *Env {
+	e := &Env{RecordMW: true}
+	if n := SiblingsOneIn; n > 0 {
+		e.Siblings = mix(caseSalt.Load()+envSeq.Add(1))%n == 0
+	}
+	return e
+}
+
+// DecoyOptions are the options of the decoy siblings: interceptors that accept everything for every rule text the
+// pools use (as interceptor or as regexp), another TRACE handler, any-origin CORS, another URL domain, a recovery
+// function that swallows panics, and the lock.
+func (e *Env) DecoyOptions() []mux.Option {
+	o := []mux.Option{
+		mux.WithTrace(e.NewHnd(KTrace, "decoy")),
+		mux.WithCORS([]string{"*"}, []string{"*"}, []string{"X-Decoy"}, 77, false),
+		mux.WithURLDomain("https://decoy.example"),
+		mux.WithRecovery(func(w http.ResponseWriter, v any) { w.WriteHeader(299) }),
+		mux.WithLock(true),
+	}
+	if len(DecoyRules) > 0 {
+		o = append(o, mux.WithInterceptor(func(string) bool { return true }, DecoyRules...))
+	}
+	return o
+}
 
 func (e *Env) NextID() int64 { return e.ids.Add(1) }
 
@@ -116,9 +167,11 @@ func (e *Env) OptionsBuilder(n types.Node) *Hnd {
 	if n != nil {
 		h.Pattern = n.Pattern()
 	}
-	e.mu.Lock()
-	e.Builders = append(e.Builders, BuilderCall{KOptions, h.Pattern, h})
-	e.mu.Unlock()
+	if e.inDecoy.Load() == 0 {
+		e.mu.Lock()
+		e.Builders = append(e.Builders, BuilderCall{KOptions, h.Pattern, h})
+		e.mu.Unlock()
+	}
 	return h
 }
 
@@ -131,9 +184,11 @@ func (e *Env) M405Builder(n types.Node) *Hnd {
 	if n != nil {
 		h.Pattern = n.Pattern()
 	}
-	e.mu.Lock()
-	e.Builders = append(e.Builders, BuilderCall{K405, h.Pattern, h})
-	e.mu.Unlock()
+	if e.inDecoy.Load() == 0 {
+		e.mu.Lock()
+		e.Builders = append(e.Builders, BuilderCall{K405, h.Pattern, h})
+		e.mu.Unlock()
+	}
 	return h
 }
 
@@ -434,7 +489,36 @@ func (e *Env) NewRouter(name string, o ...mux.Option) *mux.Router[*Hnd] {
 	}
 	e.NotFoundOf[name] = nf
 	e.mu.Unlock()
-	return mux.NewRouter[*Hnd](name, e.Call, nf, e.M405Builder, e.OptionsBuilder, o...)
+	if !e.Siblings {
+		return mux.NewRouter[*Hnd](name, e.Call, nf, e.M405Builder, e.OptionsBuilder, o...)
+	}
+	g := mux.NewGroup[*Hnd](e.Call, nf, e.M405Builder, e.OptionsBuilder)
+	never := mux.MatcherFunc(func(*http.Request, *types.Context) bool { return false })
+	decoy := func(n string) {
+		e.inDecoy.Add(1)
+		defer e.inDecoy.Add(-1)
+		d := g.New(n, never, e.DecoyOptions()...)
+		d.Handle("/decoy/{id}", e.NewHnd(KRoute, "/decoy/{id}"), nil, "GET", "POST")
+	}
+	SiblingRouters.Add(1)
+	decoy(name + "-decoy-before")
+	// the options themselves must build a stand-alone router (a panic here is the caller's business and propagates as it is)
+	e.inDecoy.Add(1)
+	func() {
+		defer e.inDecoy.Add(-1)
+		mux.NewRouter[*Hnd](name, e.Call, nf, e.M405Builder, e.OptionsBuilder, o...)
+	}()
+	var r *mux.Router[*Hnd]
+	func() {
+		defer func() {
+			if p := recover(); p != nil {
+				panic(fmt.Sprintf("Group.New(%q) with the router's own options panicked although the same options build a stand-alone router; a sibling router of the group was created before with other options (leaked?): %v", name, p))
+			}
+		}()
+		r = g.New(name, nil, o...)
+	}()
+	decoy(name + "-decoy-after")
+	return r
 }
 
 func (e *Env) NewGroup(o ...mux.Option) *mux.Group[*Hnd] {
